@@ -222,12 +222,12 @@ def sessions_task(name, sessions):
 
 # ------------------------------------------------------------------ library level: execute() fed command by command
 
-def incr_task(alphabet, prefix, rest, inputs):
+def incr_task(alphabet, prefix, rest, inputs, texts=None):
     st = Stats()
     sh = shim()
     B = 300
-    for tup in itertools.product(alphabet, repeat=rest):
-        text = ' '.join(prefix + list(tup))
+    it = texts if texts is not None else (' '.join(prefix + list(tup)) for tup in itertools.product(alphabet, repeat=rest))
+    for text in it:
         prog = P.parse(text)
         for inp in inputs:
             steps, end, m = ref_trace(prog, inp, {}, 0, B)
@@ -329,6 +329,10 @@ def run_c12(tier):
             for a in alpha:
                 for b in alpha:
                     tasks.append(('incr', alpha, [a, b], L - 2, ['ab\nc']))
+    from .eng_optdiff import labelflow_family
+    lf = labelflow_family()
+    for i in range(0, len(lf), 100):
+        tasks.append(('incr', [], [], 0, ['ab\nc'], lf[i:i + 100]))
     collect(st, pmap(_task, [(t,) for t in tasks]))
     cov = {
         'states': sum(v.get('commands', 0) for v in info.values()),
